@@ -94,3 +94,169 @@ def coepValues : List String := {strs(coep)}
 end Wz.Gen.Views
 """
     return write("Views", body, "src/werkzeug/sansio/response.py, datastructures/{cache_control,csp,auth}.py, http.py (live objects)")
+
+
+def _headers_names(fn_node):
+    """string constants used as a header name in `self.headers.<m>(NAME…)`, `self.headers[NAME]`,
+    `NAME in self.headers`, `del self.headers[NAME]` inside a function"""
+    names = []
+
+    def is_headers(n):
+        return isinstance(n, ast.Attribute) and n.attr == "headers" and isinstance(n.value, ast.Name) and n.value.id == "self"
+
+    for node in ast.walk(fn_node):
+        if isinstance(node, ast.Call) and isinstance(node.func, ast.Attribute) and is_headers(node.func.value):
+            if node.args and isinstance(node.args[0], ast.Constant) and isinstance(node.args[0].value, str):
+                names.append(node.args[0].value)
+        elif isinstance(node, ast.Subscript) and is_headers(node.value):
+            if isinstance(node.slice, ast.Constant) and isinstance(node.slice.value, str):
+                names.append(node.slice.value)
+        elif isinstance(node, ast.Compare) and len(node.comparators) == 1 and is_headers(node.comparators[0]):
+            if isinstance(node.left, ast.Constant) and isinstance(node.left.value, str):
+                names.append(node.left.value)
+    out = []
+    for n in names:
+        if n not in out:
+            out.append(n)
+    return out
+
+
+def _touches_headers(fn_node):
+    for node in ast.walk(fn_node):
+        if isinstance(node, ast.Attribute) and node.attr == "headers" and isinstance(node.value, ast.Name) and node.value.id == "self":
+            return True
+    return False
+
+
+def _unconditional_rebind(fn_node, target="_on_update"):
+    """does the function assign `<x>._on_update = …` in a statement list reached without passing an
+    `if` that tests that attribute? Answers (number of assignments, number guarded by a test that
+    mentions the attribute)."""
+    total = guarded = 0
+
+    def walk(stmts, guards):
+        nonlocal total, guarded
+        for st in stmts:
+            if isinstance(st, ast.Assign):
+                for tg in st.targets:
+                    if isinstance(tg, ast.Attribute) and tg.attr == target:
+                        total += 1
+                        if any(target in ast.dump(g) for g in guards):
+                            guarded += 1
+            elif isinstance(st, ast.If):
+                walk(st.body, guards + [st.test])
+                walk(st.orelse, guards + [st.test])
+            elif isinstance(st, (ast.For, ast.While, ast.With, ast.Try)):
+                for field in ("body", "orelse", "finalbody"):
+                    walk(getattr(st, field, []) or [], guards)
+                for hnd in getattr(st, "handlers", []) or []:
+                    walk(hnd.body, guards)
+
+    walk(fn_node.body, [])
+    return total, guarded
+
+
+@generator("ResponseProps")
+def gen_response_props():
+    """Every attribute of `sansio.Response` that reads or writes `self.headers`: descriptors
+    (`header_property`, `_set_property`, properties whose getter installs an `on_update` closure,
+    other properties) and methods, with the header names they use - from the live class and the
+    AST of the module."""
+    sans = importlib.import_module("werkzeug.sansio.response")
+    utils = importlib.import_module("werkzeug.utils")
+    src = inspect.getsource(sans)
+    tree = ast.parse(src)
+    cls = next(n for n in tree.body if isinstance(n, ast.ClassDef) and n.name == "Response")
+    fns = {}
+    for n in cls.body:
+        if isinstance(n, ast.FunctionDef):
+            deco = ""
+            for d in n.decorator_list:
+                if isinstance(d, ast.Name) and d.id == "property":
+                    deco = "get"
+                elif isinstance(d, ast.Attribute) and d.attr in ("setter", "deleter"):
+                    deco = d.attr
+            fns.setdefault(n.name, {})[deco or "fn"] = n
+    rows = []
+    for name in sorted(vars(sans.Response)):
+        p = vars(sans.Response)[name]
+        if isinstance(p, utils.header_property):
+            rows.append((name, "header_property", [p.name], True, True))
+        elif isinstance(p, property) and p.fget is not None and p.fget.__qualname__.startswith("_set_property"):
+            rows.append((name, "set_view", [closure_of(p.fget)["name"]], p.fset is not None, False))
+        elif isinstance(p, property):
+            parts = fns.get(name, {})
+            touched = any(_touches_headers(f) for f in parts.values())
+            if not touched:
+                # e.g. status / status_code / is_json: no direct use of self.headers
+                rows.append((name, "property_no_headers", [], p.fset is not None, p.fdel is not None))
+                continue
+            getter = parts.get("get")
+            view = getter is not None and any(isinstance(x, ast.FunctionDef) and x.name == "on_update" for x in ast.walk(getter))
+            names = []
+            for f in parts.values():
+                for h in _headers_names(f):
+                    if h.lower() not in [x.lower() for x in names]:
+                        names.append(h)
+            rows.append((name, "view" if view else "property", names, p.fset is not None, p.fdel is not None))
+        elif callable(p) and name in fns and "fn" in fns[name] and _touches_headers(fns[name]["fn"]) and name != "__init__":
+            rows.append((name, "method", _headers_names(fns[name]["fn"]), False, False))
+    # the callback (re)binding of www_authenticate: getter and setter assign `_on_update`
+    # unconditionally (not under a test of that attribute)
+    g_tot, g_guard = _unconditional_rebind(fns["www_authenticate"]["get"])
+    s_tot, s_guard = _unconditional_rebind(fns["www_authenticate"]["setter"])
+    charset_mt = sorted(utils._charset_mimetypes)
+    body = f"""namespace Wz.Gen.ResponseProps
+
+/-- every attribute of `sansio.Response` that is a descriptor or a method using `self.headers`:
+(attribute, kind, header names it uses, has a setter, has a deleter);
+kind = "header_property" | "set_view" | "view" (getter installs an on_update closure) | "property" |
+"property_no_headers" | "method" -/
+def attrs : List (String × String × List String × Bool × Bool) := [
+{chr(10).join("  (" + lean_str(n) + ", " + lean_str(k) + ", " + strs(hn) + ", " + ("true" if st else "false") + ", " + ("true" if dl else "false") + ")," for n, k, hn, st, dl in rows).rstrip(",")}]
+
+/-- `Response.www_authenticate`: (assignments to `_on_update` in the getter, of which under a test of
+`_on_update`; the same for the setter) -/
+def wwwAuthRebind : (Nat × Nat) × (Nat × Nat) := (({g_tot}, {g_guard}), ({s_tot}, {s_guard}))
+
+/-- `werkzeug.utils._charset_mimetypes` -/
+def charsetMimetypes : List String := {strs(charset_mt)}
+
+end Wz.Gen.ResponseProps
+"""
+    return write("ResponseProps", body, "src/werkzeug/sansio/response.py (live class + AST), src/werkzeug/utils.py")
+
+
+CC_SET_VALUES = [("~", None), ("t", True), ("f", False), ("i0", 0), ("i1", 1), ("i5", 5), ("i-2", -2), ("s", ""), ("sx", "x"), ("s10", "10"), ("sa b", "a b")]
+
+
+@generator("CacheSetTable")
+def gen_cache_set_table():
+    """`_CacheControl._set_cache_value` / `_get_cache_value` evaluated on the live class over
+    type in {bool, int, None (str)} x every kind of value x {directive absent, present with a value}:
+    what is stored afterwards and what the typed getter then answers."""
+    ds = importlib.import_module("werkzeug.datastructures")
+    rows = []
+    for tname, ty in (("bool", bool), ("int", int), ("str", None)):
+        for code, val in CC_SET_VALUES:
+            for present in (False, True):
+                d = ds.ResponseCacheControl({"k": "old"} if present else {})
+                try:
+                    d._set_cache_value("k", val, ty)
+                    res = "absent" if "k" not in d else "none" if d["k"] is None else "str:" + d["k"]
+                except ValueError:
+                    res = "ValueError"
+                got = d._get_cache_value("k", None, ty)
+                g = "none" if got is None else ("true" if got is True else "false") if isinstance(got, bool) else f"int:{got}" if isinstance(got, int) else "str:" + got
+                rows.append((tname, code, present, res, g))
+    body = f"""namespace Wz.Gen.CacheSetTable
+
+/-- (directive type, value assigned (wire code: ~ None, t / f booleans, i<int>, s<text>), directive
+present before, stored afterwards: "absent" | "none" | "str:<text>" | "ValueError",
+typed read afterwards with empty=None: "none" | "true" | "false" | "int:<n>" | "str:<text>") -/
+def rows : List (String × String × Bool × String × String) := [
+{chr(10).join("  (" + lean_str(a) + ", " + lean_str(b) + ", " + ("true" if c else "false") + ", " + lean_str(d) + ", " + lean_str(e) + ")," for a, b, c, d, e in rows).rstrip(",")}]
+
+end Wz.Gen.CacheSetTable
+"""
+    return write("CacheSetTable", body, "src/werkzeug/datastructures/cache_control.py (live _set_cache_value / _get_cache_value)")
